@@ -3,6 +3,7 @@ package node
 import (
 	"fmt"
 	"sort"
+	"strings"
 
 	"github.com/NethermindEth/juno/core"
 	"github.com/NethermindEth/juno/core/felt"
@@ -772,6 +773,25 @@ func removedEntryWasNoop(b *chaingen.Block) bool {
 	return old.Equal(b.SU.StateDiff.StorageDiffs[a[0]][k])
 }
 
+// legacyCommitted: the block hash family of before 0.13.2 commits number, state root, sequencer
+// address, timestamp, transaction count and commitment (transaction hashes and signatures), event
+// count and commitment (the block's events in order: emitter, keys, data - not which transaction
+// emitted them) and the parent hash. Gas prices, DA mode, the version string, receipt fields other
+// than events, and state-diff entries that do not change the state root are not committed, so
+// changing them is not a tampering of a committed field for such a block.
+func legacyCommitted(name string) bool {
+	for _, p := range []string{
+		"header.l1_gas_price_", "header.l1_data_gas_price_", "header.l2_gas_price_", "header.l1_da_mode", "header.protocol_version",
+		"receipt.fee", "receipt.reverted_flag", "receipt.revert_reason", "receipt.l1_gas_consumed", "receipt.l1_data_gas_consumed",
+		"receipt.message_", "receipt.event_moved_to_other_tx", "diff.declared_v0_class_",
+	} {
+		if strings.HasPrefix(name, p) {
+			return false
+		}
+	}
+	return true
+}
+
 // tryTampered pushes a tampered variant of b through the node's acceptance path and requires
 // rejection without any side effect.
 func tryTampered(c *sim.Ctx, n *Node, g *chaingen.Gen, b *chaingen.Block, tm tampering, m *Model) bool {
@@ -782,6 +802,11 @@ func tryTampered(c *sim.Ctx, n *Node, g *chaingen.Gen, b *chaingen.Block, tm tam
 	}
 	if tm.name == "diff.storage_entry_removed_rehashed" && removedEntryWasNoop(b) {
 		return false
+	}
+	if chaingen.IsLegacy(b.Version) {
+		if !legacyCommitted(tm.name) || (tm.name == "diff.storage_entry_removed" && removedEntryWasNoop(b)) {
+			return false
+		}
 	}
 	if !tm.apply(tb) {
 		return false
@@ -822,6 +847,11 @@ func C02(c *sim.Ctx) {
 	p.d.opts.MaxEvents = 1 + t.Draw("max.events", 3)
 	p.d.opts.MaxDiff = 3 + t.Draw("max.diff", 7)
 	n := func() *Node { return p.nodes[0] }
+	if t.Draw("legacy.versions", 3) == 2 || c.Knobs["legacy"] != "" {
+		// the chain starts in (or before) the pre-0.13.2 block hash family
+		p.d.withLegacy()
+		c.Probe("legacy_hash_family_schedule")
+	}
 	maxBlocks := 3 + t.Draw("max.blocks", 6)
 	perBlock := 3 + t.Draw("tamperings.per.block", 6)
 	if c.Tier == "thorough" && t.Draw("exhaustive", 3) == 0 {
@@ -871,6 +901,9 @@ func C02(c *sim.Ctx) {
 			c.Fail("valid_block_rejected", "store", "[%s] valid block %d (v%s) rejected after tampered variants were offered: %v", backendName(n()), b.B.Number, b.Version, err)
 		}
 		p.m.Chain = append(p.m.Chain, b)
+		if chaingen.IsLegacy(b.Version) {
+			c.Probe("legacy_hash_family_block_stored")
+		}
 		switch t.Draw("after", 8) {
 		case 6:
 			p.revert()
